@@ -63,8 +63,9 @@ type Conn struct {
 	connecting  bool // a Connect on this transport is in progress (harness view)
 	activeCB    bool // the Active state callback is running (Connect still holds its lock)
 	fragIdx     int
-	busyUntil   int64      // b2c stream: fake time (ns) until which earlier packets occupy the stream
-	sendMu      sync.Mutex // engine R: one packet's fragments are contiguous
+	dropped     map[int]bool // b2c packets swallowed by a silent period
+	busyUntil   int64        // b2c stream: fake time (ns) until which earlier packets occupy the stream
+	sendMu      sync.Mutex   // engine R: one packet's fragments are contiguous
 	jitIdx      int
 }
 
@@ -409,11 +410,22 @@ func (c *Conn) send(p *Pkt, raw []byte, class string, extraDelayNs int64, frag [
 // releasePart puts fragment i of packet m into the read buffer (engine S).
 func (c *Conn) releasePart(m int, p *Pkt, raw []byte, class string, parts [][]byte, i int, eofAfter bool) {
 	s := c.s
-	if c.isSilent() && !c.exemptFromSilence(p) {
-		if i == 0 {
-			s.log(Rec{Kind: "dropb2c", Conn: c.k, N: m, P: p, S: "silent"})
-		}
+	// the silent period swallows whole packets: one whose first fragment is already
+	// out is completed
+	if i == 0 && c.isSilent() && !c.exemptFromSilence(p) {
+		s.log(Rec{Kind: "dropb2c", Conn: c.k, N: m, P: p, S: "silent"})
+		c.mu.Lock()
+		c.dropped[m] = true
+		c.mu.Unlock()
 		return
+	}
+	if i > 0 {
+		c.mu.Lock()
+		d := c.dropped[m]
+		c.mu.Unlock()
+		if d {
+			return
+		}
 	}
 	if !c.alive() {
 		if i == 0 {
